@@ -90,10 +90,42 @@ def check_getters(prog: Program, rep: Report, spec: Dict[str, Any], rid: str, cl
         ok = any(cv == canon(w) for w in want)
         if ok and cv != canon(want[0]):
             rep.note(f"{g}: accepted equivalent form - {entry['accept'][0].get('reason', '')}")
+        if not ok and _foreign_composite(v, want):
+            # several reads of the same bytes combined by arithmetic of the getter's own: another decoding of the field than
+            # the forms the specification lists - whether it yields the same number is not something this rule compares
+            rep.undecided(rid, g, where, f"{g} decodes the bytes the reference reads in a form this rule does not compare ({T.show(v)[:200]})")
+            continue
         rep.check_term(ok, v, rid, g, where,
                   f"{g} extracts {T.show(v)[:260]}; the reference layout says {T.show(want[0])[:260]}",
                   "extraction term equals the reference layout", key=f"{rid}|{g}")
     return derived
+
+
+def reads_of(v: Any) -> set:
+    """The nibble ranges of a message a term reads."""
+    out: set = set()
+    if isinstance(v, tuple):
+        if len(v) == 4 and v[0] in ("hx", "HX") and isinstance(v[2], int):
+            out.add((v[2], v[3]))
+            return out
+        for x in v:
+            out |= reads_of(x)
+    elif isinstance(v, T.Lin):
+        for t in v.coef:
+            out |= reads_of(t)
+    return out
+
+
+def _foreign_composite(v: Any, want: List[Any]) -> bool:
+    rv = reads_of(v)
+    if len(rv) < 2 or any(b is None for _, b in rv):
+        return False
+    span = (min(a for a, _ in rv), max(b for _, b in rv))
+    for w in want:
+        rw = reads_of(w)
+        if rw and not any(b is None for _, b in rw) and rw != rv and (min(a for a, _ in rw), max(b for _, b in rw)) == span:
+            return True
+    return False
 
 
 def run(prog: Program, rep: Report, tier: str) -> None:
@@ -201,6 +233,10 @@ def run(prog: Program, rep: Report, tier: str) -> None:
                 if role in spec["getters"]:
                     alts += [LS.term_of(prog, a, MSG) for a in spec["getters"][role].get("accept", [])]
                 if canon(got_r) == canon(want_r):
+                    record(field_ok, fname, None)
+                elif role in derived and canon(got) == canon(derived[role]) and _foreign_composite(derived[role], alts):
+                    # the field holds exactly what the getter of its role returns; that getter decodes the bytes in a form of
+                    # its own, which R5.1 reports as undecided - nothing further is wrong with the assignment
                     record(field_ok, fname, None)
                 elif all(canon(got) != canon(w_) for w_ in alts) and (T.imprecise(got) is not None):
                     record(field_ok, fname, f"UNDECIDED:{T.imprecise(got)}")
